@@ -23,6 +23,59 @@ check(
 )
 
 
+check(
+    "C02",
+    "property-based testing: Hypothesis grammar + hostile mutation documents, validity predicate on every returned offset (plain and markup mode, three tokenizers)",
+    "Generated-input search (exploration): every citation returned for every generated document is checked against "
+    "the offset-ordering, slice-prefix and pin-cite-containment predicate of the statement, in plain mode for the three "
+    "tokenizers and in markup mode against the cleaned text.",
+    "Trusts eyecite.clean_text for the markup-mode reference text (C20 checks it). Lone surrogates excluded.",
+    "DESIGN.md section 3 / C02",
+)
+check(
+    "C03",
+    "property-based testing: generated documents + data-encoded merge histories (model-based), order/disjointness/identity/idempotence invariants after every step",
+    "Generated-input search (exploration) over documents and over merge histories (add reference citations for any "
+    "full citation and resolved name, re-filter), with the statement's guarantees asserted after every step.",
+    "Histories are Hypothesis-drawn operation lists interpreted against the live result (indices modulo what exists).",
+    "DESIGN.md section 3 / C03",
+)
+check(
+    "C04",
+    "fuzzing / property-based testing: hostile-string generation, crash oracle with exception bucketing by (type, innermost eyecite frame)",
+    "Generated-input search (exploration): get_citations -> resolve_citations -> annotate_citations in all three "
+    "tag modes, for three tokenizers x remove_ambiguous; any escaping exception is a violation, bucketed by raise site.",
+    "Lone surrogates and documented 'raises ValueError on an unknown option' contracts are outside the domain.",
+    "DESIGN.md section 3 / C04",
+)
+check(
+    "C13",
+    "property-based testing: regex-directed string generation per extractor (language-inclusion search) + differential testing of filtered vs reference tokenizer on generated documents and extractor sub-lists",
+    "Generated-input search (exploration): per-extractor members of the pattern language must be selected by the "
+    "filter; token streams of AhocorasickTokenizer(L) and Tokenizer(L) are compared token by token for generated "
+    "documents and generated extractor lists.",
+    "Inclusion is searched, not proved. The harness builds its own Aho-Corasick index only to choose relevant sub-lists.",
+    "DESIGN.md section 3 / C13",
+)
+check(
+    "C17",
+    "property-based testing: generated citation-dense documents, substring-in-extent oracle + metamorphic append-after-paragraph relation",
+    "Generated-input search (exploration): every textual metadata value must be a substring of the citation's own "
+    "(or its parallel group's) extent; appending an unrelated paragraph must not change existing citations.",
+    "The append relation is asserted only across a paragraph break (see DESIGN 4.2/4.3).",
+    "DESIGN.md section 3 / C17",
+)
+check(
+    "C18",
+    "property-based testing: exhaustive enumeration of ambiguous reporter strings x boundary years x year positions + generated documents; reference re-implementation of edition/year rules from reporters-db",
+    "Enumeration of the finite sub-domain (all multi-edition plain reporter strings x boundary years x 7 forms) plus "
+    "generated-input search; year range, guess soundness and the remove_ambiguous filter law are checked against an "
+    "independent re-implementation.",
+    "Edition dates are read from eyecite's Edition objects (copied from reporters-db); 'today' from the system clock.",
+    "DESIGN.md section 3 / C18",
+)
+
+
 def build():
     all_ids = [f"C{i:02d}" for i in range(1, 21)]
     checks = []
